@@ -230,3 +230,12 @@ Fixpoint layouts_match (msgs : list (bytes * list (bytes * bytes))) (spec : list
     layouts_match msgs' spec'
   | _, _ => false
   end.
+
+Arguments wt {TxV BlockV HdrV} k v.
+Arguments wt_elem {TxV BlockV HdrV} ks e.
+Arguments wt_field {TxV BlockV HdrV} ft v.
+Arguments wire {TxV BlockV HdrV} stream_T stream_B stream_z k v.
+Arguments wire_tuple {TxV BlockV HdrV} stream_T stream_B stream_z ks vs.
+Arguments wire_elem {TxV BlockV HdrV} stream_T stream_B stream_z ks e.
+Arguments wire_field {TxV BlockV HdrV} stream_T stream_B stream_z ft v.
+Arguments wire_message {TxV BlockV HdrV} stream_T stream_B stream_z fts vals.
